@@ -2,6 +2,7 @@ package props
 
 import (
 	"context"
+	"errors"
 	"fmt"
 	"math/rand"
 	"strings"
@@ -99,6 +100,7 @@ type quicOpts struct {
 	// encryption level in turn (at least two of them are not the level it expects)
 	wrongLevelAt int
 	serverPlan   *tls.VerifPlan // hooks for the QUIC server's connection
+	neverStart   bool           // Start is not called at all; HandleData / Close must still return
 }
 
 func driveQUIC(rg *rand.Rand, ccfg *tls.Config, spec *tls.ClientHelloSpec, scfg *tls.Config, cancelAt int, fragment bool, qo quicOpts) *quicRun {
@@ -141,7 +143,11 @@ func driveQUIC(rg *rand.Rand, ccfg *tls.Config, spec *tls.ClientHelloSpec, scfg 
 		bounded(s.Close)
 	}
 	var ok bool
-	if run.startErr, ok = bounded(func() error { return q.Start(ctx) }); !ok {
+	if qo.neverStart {
+		// a caller that never calls Start (e.g. because an earlier step of its own failed)
+		// and then feeds data / closes: the calls must return
+		run.startErr, ok = errors.New("verif: Start was never called"), true
+	} else if run.startErr, ok = bounded(func() error { return q.Start(ctx) }); !ok {
 		run.hang = "UQUICConn.Start"
 		cancel()
 		return run
@@ -310,7 +316,7 @@ func TestC23(t *testing.T) {
 				listed = v.Curves
 			}
 		}
-		scenario := []string{"ok", "ok", "ok", "hrr", "no-servername", "empty-psk", "two-paddings", "server-alert", "cancel", "cancel", "minversion-below-1.3", "wrong-level"}[i%12]
+		scenario := []string{"ok", "ok", "ok", "hrr", "no-servername", "empty-psk", "two-paddings", "server-alert", "cancel", "cancel", "minversion-below-1.3", "wrong-level", "never-started"}[i%13]
 		ccfg := &tls.Config{ServerName: "example.test", RootCAs: peer.Fix().CA.Pool, Time: peer.FixedTime, MinVersion: tls.VersionTLS13, NextProtos: protos}
 		scfg := peer.ServerConfig()
 		scfg.MinVersion = tls.VersionTLS13
@@ -365,6 +371,9 @@ func TestC23(t *testing.T) {
 		qo := quicOpts{beforeStart: beforeStart}
 		if scenario == "wrong-level" {
 			qo.wrongLevelAt = 1 + rg.Intn(14)
+		}
+		if scenario == "never-started" {
+			qo.neverStart = true
 		}
 		run := driveQUIC(rg, ccfg, spec, scfg, cancelAt, rg.Intn(2) == 0, qo)
 		sig := map[string]string{"scenario": scenario}
@@ -440,6 +449,8 @@ func TestC23(t *testing.T) {
 			} else {
 				r.Count("unbuildable_reported", 1)
 			}
+		case "never-started":
+			r.Count("never_started_runs", 1)
 		case "wrong-level":
 			if run.wrongLevelErrs >= 2 {
 				r.Count("wrong_level_deliveries_refused", 1)
